@@ -370,7 +370,7 @@ class Check:
         def one(j):
             return model_check(j["spec"], j["cfg"], "%s-%s" % (self.prop, j["cfg"]),
                                workers=j.get("workers", 4), timeout=j.get("timeout", 3600),
-                               xmx=j.get("xmx", "6g"))
+                               xmx=j.get("xmx", "6g"), coverage=j.get("coverage", True))
         with ThreadPoolExecutor(max_workers=parallel) as ex:
             for r in ex.map(one, jobs):
                 if r["never_taken"]:
